@@ -2146,6 +2146,8 @@ sexp sexp_make_constructor_op (sexp ctx, sexp self, sexp_sint_t n, sexp name, se
   sexp_uint_t type_size;
   if (sexp_typep(type)) type = sexp_make_fixnum(sexp_type_tag(type));
   sexp_assert_type(ctx, sexp_fixnump, SEXP_FIXNUM, type);
+  if (sexp_unbox_fixnum(type) < 0 || sexp_unbox_fixnum(type) >= sexp_context_num_types(ctx))
+    return sexp_type_exception(ctx, self, SEXP_TYPE, type);
   type_size = sexp_type_size_base(sexp_type_by_index(ctx, sexp_unbox_fixnum(type)));
   return sexp_make_opcode(ctx, self, name, sexp_make_fixnum(SEXP_OPC_CONSTRUCTOR),
                           sexp_make_fixnum(SEXP_OP_MAKE), SEXP_ZERO, SEXP_ZERO,
